@@ -204,13 +204,14 @@ def norm_correspondence(ctx, impl):
     """model of normalize_for_matching vs the real one on generated path strings."""
     model = ocaml_build("paths_drv", ["paths_ex"])
     rng = ctx.rng
-    cwd = "/w/proj"
+    tmp = tempfile.mkdtemp(prefix="sgv-cwd-")
+    cwd = os.path.join(os.path.realpath(tmp), "proj")
     comps = ["src", "a.rs", ".", "..", "", "gen", ".hidden", "x y", "é", "a\\b", "vendor", "...", ".x"]
     cases = []
     for _ in range(3000 if ctx.tier == "quick" else 40000):
         k = rng.randint(0, 4)
         body = "/".join(rng.choice(comps) for _ in range(k))
-        pre = rng.choice(["", "./", ".\\", "././", cwd + "/", cwd, "/other/", "/w/pro", "/w/proj2/", ".", "./.", ".//"])
+        pre = rng.choice(["", "./", ".\\", "././", cwd + "/", cwd, cwd + "\\", "/other/", cwd[:-1], cwd + "2/", ".", "./.", ".//"])
         cases.append(pre + body)
     cases += [".", "./", "", "./.", cwd, cwd + "/", cwd + "/src/a.rs", "./src/a.rs", "src/a.rs", ".\\src\\a.rs"]
     enc = lambda s: ",".join(str(ord(c)) for c in s) if s else "-"
@@ -222,6 +223,7 @@ def norm_correspondence(ctx, impl):
         if a != b:
             mism += 1
             ctx.cov.setdefault("norm_first_mismatch", {"path": c, "impl": a, "model": b})
+    shutil.rmtree(tmp, ignore_errors=True)
     if len(io) != len(cases) or len(mo) != len(cases):
         raise CheckBroken("paths drivers died: %d %d %d" % (len(cases), len(io), len(mo)))
     ctx.cov["norm_cases"] = len(cases)
